@@ -125,6 +125,7 @@ type EmbItem struct {
 	ID   string
 	Note string
 }
+type EmbTiny struct{ Title string }
 type EmbColor string
 type EmbCelsius float64
 type EmbDoc struct {
@@ -582,6 +583,21 @@ func doTyped(seedS, idxS string) outcome {
 		// must agree with each other (a fast path of one route that knows only generic maps shows up here)
 		if e.nav || e.cmp {
 			wrapped := map[string]interface{}{"w": doc, "z": 1.0}
+			// ONE compiled expression on documents of different struct types in turn (a per-expression memo of where a
+			// field was found last must not outlive the type it was found in)
+			if jpT, cerr := jmespath.Compile("Title"); cerr == nil {
+				seq := []interface{}{doc, &EmbDoc{Title: "emb"}, EmbTiny{Title: "tiny"}, doc, &EmbTiny{Title: "t2"}, EmbDoc{Title: "e2"}}
+				for _, sd := range seq {
+					var r1, r2 interface{}
+					var e1, e2 error
+					p1, _ := safely(func() { r1, e1 = jpT.Search(sd) })
+					p2, _ := safely(func() { r2, e2 = jmespath.Search("Title", sd) })
+					if searchBase(r1, e1, p1) != searchBase(r2, e2, p2) {
+						o.flags = append(o.flags, "typedreuse:"+truncate(searchBase(r1, e1, p1), 60)+":oneshot="+truncate(searchBase(r2, e2, p2), 60))
+						break
+					}
+				}
+			}
 			// typed slices as VALUES of a generic map (not struct fields): index, slice, projections, filter, flatten and
 			// the pipe law on them
 			if rv := reflect.Indirect(reflect.ValueOf(doc)); rv.Kind() == reflect.Struct && rv.Type() == tRoot {
